@@ -416,7 +416,15 @@ func genC13(rng *rand.Rand, n int, emit func(Case), dist map[string]int) {
 							present = append(present, ck.Value)
 						}
 					}
-					full = full && len(cs) <= 20
+					// (echo stops collecting at the first cookie of that name at position 20 or later: with several key cookies
+					// among more than 20 cookies a later one may go unseen; a single key cookie is found wherever it stands)
+					nkey := 0
+					for _, ck := range probe.Cookies() {
+						if ck.Name == parts[1] {
+							nkey++
+						}
+					}
+					full = full && (len(cs) <= 20 || nkey <= 1)
 					lks = append(lks, L(I(2), S(parts[1]), L(cs...)))
 				case "header":
 					pfx := ""
